@@ -119,6 +119,11 @@ def run(tier, seed, build):
             if len(st) > 150 and not any(o.startswith(("imax", "tmax", "bmax", "bored")) for o in opts) and tier == "quick" and rng.random() < 0.5:
                 opts = opts + ["bmult=1"]
             cases.append({"st": st, "wc": wc, "eq": eq, "opts": opts, "binary": binary, "dir": os.path.join(wd, "r%d" % len(cases)), "seed": rng.randrange(10**6)})
+    # every option set once, whatever the random choices above: on a hairpin with a free loop
+    hp = [t for t in triples if any(x != -1 for x in t[1])][:1]
+    for st, wc, eq in hp:
+        for opts in OPTION_SETS[2:]:
+            cases.append({"st": st, "wc": wc, "eq": eq, "opts": list(opts), "binary": binary, "dir": os.path.join(wd, "r%d" % len(cases)), "seed": rng.randrange(10**6)})
     try:
         impl = fw.run_impl("props.c19", "impl_case", cases, per_case_timeout=200, procs=14, chunksize=1)
     finally:
